@@ -27,7 +27,8 @@ New == [lines  |-> <<>>,     \* the text: a sequence of lines (here: line identi
         past   |-> <<>>,     \* ghost: text before each not-yet-undone command
         future |-> <<>>,     \* ghost: text after each undone command
         saved  |-> <<>>,     \* ghost: text at the last lbuf_saved()
-        ret    |-> 0]        \* return value of the last operation
+        ret    |-> 0,        \* return value of the last operation
+        aux    |-> 0]        \* stamp copied into new log entries (vi: the cursor offset when the command began)
 
 SeqAt(s, i) == IF i = 0 THEN s.ulast ELSE s.hist[i].seq
 Dirty(s)    == SeqAt(s, s.hu) # s.uzero              \* lbuf_seq(lb) != useq_zero
@@ -42,7 +43,7 @@ Edit(s, beg0, end0, ins, nonnull) ==
        ELSE [s EXCEPT
               !.hist   = Append(SubSeq(s.hist, 1, s.hu),
                                 [pos |-> beg, del |-> SubSeq(s.lines, beg + 1, end),
-                                 ins |-> ins, seq |-> s.useq]),
+                                 ins |-> ins, seq |-> s.useq, aux |-> s.aux]),
               !.hu     = s.hu + 1,
               !.lines  = Splice(s.lines, beg, end - beg, ins),
               !.past   = IF InCmd(s) THEN s.past ELSE Append(s.past, s.lines),
